@@ -672,17 +672,136 @@ theorem kinv_applyAct {s : Sys} {op : Nat} (hk : Kinv s op) (a : WorkAct) : Kinv
     simp only [applyAct, maintenance, wdExecute]
     exact kinv_abortMany _ (kinv_sameOwn (sameOwn_checkAndBoost s) hk)
 
-theorem refetch_tracked {s s1 : Sys} {op : Nat} {c : Ctx} (hid : c.id = op) (hk : Kinv s1 op) :
-    (refetch s s1 c).id = op ∧ Tracked s1 op (refetch s s1 c) := by
+/-! ### callbacks that act on the system (checkpoint conditions, `work_fn`, `validate_fn`) -/
+
+theorem ctx?_eq_none {s : Sys} {o : Nat} (h : ∀ c ∈ s.active, c.id ≠ o) : s.ctx? o = none := by
+  unfold Sys.ctx?
+  exact List.find?_eq_none.mpr (fun c hc => by simpa using h c hc)
+
+theorem abortById_owns {s : Sys} (o : Nat) {a x : Nat} (h : Owns (abortById s o) a x) : Owns s a x := by
+  unfold abortById at h
+  cases hc : s.ctx? o with
+  | none => rw [hc] at h; exact h
+  | some cx => rw [hc] at h; exact (finish_finStep s cx).owns h
+
+theorem abortById_ids {s : Sys} (o : Nat) : ∀ c' ∈ (abortById s o).active, ∃ c ∈ s.active, c.id = c'.id := by
+  unfold abortById
+  cases hc : s.ctx? o with
+  | none => intro c' h; exact ⟨c', h, rfl⟩
+  | some cx =>
+    intro c' h
+    simp only at h
+    rw [(finish_finStep s cx).active] at h
+    exact ⟨c', (List.mem_filter.mp h).1, rfl⟩
+
+theorem abortMany_owns : ∀ (ids : List Nat) {s : Sys} {a x : Nat}, Owns (abortMany s ids) a x → Owns s a x
+  | [], _, _, _, h => h
+  | o :: ids, s, a, x, h => by
+    unfold abortMany at h
+    simp only [List.foldl_cons] at h
+    exact abortById_owns o (abortMany_owns ids h)
+
+theorem abortMany_ids : ∀ (ids : List Nat) {s : Sys}, ∀ c' ∈ (abortMany s ids).active, ∃ c ∈ s.active, c.id = c'.id
+  | [], _, c', h => ⟨c', h, rfl⟩
+  | o :: ids, s, c', h => by
+    unfold abortMany at h
+    simp only [List.foldl_cons] at h
+    obtain ⟨c1, hc1, hid1⟩ := abortMany_ids ids c' h
+    obtain ⟨c0, hc0, hid0⟩ := abortById_ids o c1 hc1
+    exact ⟨c0, hc0, hid0.trans hid1⟩
+
+/-- whatever a callback does, nobody gains ownership -/
+theorem applyAct_owns {s : Sys} (a : WorkAct) {o x : Nat} (h : Owns (applyAct s a) o x) : Owns s o x := by
+  cases a with
+  | none => exact h
+  | kill t => exact abortById_owns t h
+  | shutdown => exact abortMany_owns (s.active.map (·.id)) (show Owns (abortMany s (s.active.map (·.id))) o x from h)
+  | watchdog => exact abortMany_owns _ h
+  | maint =>
+    simp only [applyAct, maintenance, wdExecute] at h
+    exact (sameOwn_checkAndBoost s).owns.mp (abortMany_owns _ h)
+
+/-- … and no operation becomes active -/
+theorem applyAct_ids {s : Sys} (a : WorkAct) : ∀ c' ∈ (applyAct s a).active, ∃ c ∈ s.active, c.id = c'.id := by
+  cases a with
+  | none => intro c' h; exact ⟨c', h, rfl⟩
+  | kill t => exact abortById_ids t
+  | shutdown => exact abortMany_ids (s.active.map (·.id))
+  | watchdog => exact abortMany_ids _
+  | maint =>
+    intro c' h
+    simp only [applyAct, maintenance, wdExecute] at h
+    obtain ⟨c1, hc1, hid1⟩ := abortMany_ids _ c' h
+    obtain ⟨c0, hc0, hid0, _⟩ := (sameOwn_checkAndBoost s).ctxs c1 hc1
+    exact ⟨c0, hc0, hid0.trans hid1⟩
+
+/-- The invariant of a running `execute_operation`: the local context object is `op`'s and tracks everything `op`
+    owns, and so does every context listed for `op`.  Unlike `Kinv` it does not say that an unlisted operation owns
+    nothing: an operation ended from inside one of its own callbacks goes on (acquires, works, commits) with a
+    context that is no longer listed, and still has to give everything back at the end. -/
+structure Winv (s : Sys) (op : Nat) (c : Ctx) : Prop where
+  id : c.id = op
+  tracked : Tracked s op c
+  listed : ∀ c' ∈ s.active, c'.id = op → Tracked s op c'
+
+theorem winv_setCtx {s : Sys} {op : Nat} {c c2 : Ctx} (h : Winv s op c) (hid : c2.id = op)
+    (ha : c2.acquired = c.acquired) : Winv (s.setCtx c2) op c2 := by
+  have ht : Tracked (s.setCtx c2) op c2 := tracked_setCtx h.tracked ha
+  refine ⟨hid, ht, ?_⟩
+  intro c' hc' hid'
+  rcases mem_setCtx hc' with rfl | ⟨_, hne⟩
+  · exact ht
+  · rw [hid, ← hid'] at hne; exact absurd rfl hne
+
+theorem refetch_winv {s0 s1 : Sys} {op : Nat} {c : Ctx} (h0 : Winv s0 op c)
+    (hown : ∀ x, Owns s1 op x → Owns s0 op x)
+    (hids : ∀ c' ∈ s1.active, ∃ c0 ∈ s0.active, c0.id = c'.id)
+    (hk : (∃ c0 ∈ s0.active, c0.id = op) → Kinv s1 op) :
+    Winv s1 op (refetch s0 s1 c) := by
+  by_cases hl : ∃ c0 ∈ s0.active, c0.id = op
+  · have hk1 := hk hl
+    unfold refetch
+    cases hc : s1.ctx? c.id with
+    | some c' =>
+      obtain ⟨hm, hi⟩ := ctx?_some hc
+      exact ⟨hi.trans h0.id, hk1.listed c' hm (hi.trans h0.id), hk1.listed⟩
+    | none =>
+      have hno : ∀ c' ∈ s1.active, c'.id ≠ op := by rw [← h0.id]; exact ctx?_none hc
+      cases hb : s0.ctx? c.id with
+      | none => exact ⟨h0.id, fun x hx => absurd hx (hk1.unlisted hno x), hk1.listed⟩
+      | some cb => exact ⟨h0.id, fun x hx => absurd hx (hk1.unlisted hno x), hk1.listed⟩
+  · have hno0 : ∀ c0 ∈ s0.active, c0.id ≠ op := fun c0 hc0 hid => hl ⟨c0, hc0, hid⟩
+    have hno1 : ∀ c' ∈ s1.active, c'.id ≠ op := by
+      intro c' hc' hid
+      obtain ⟨c0, hc0, hid0⟩ := hids c' hc'
+      exact hno0 c0 hc0 (hid0.trans hid)
+    have e1 : s1.ctx? c.id = none := ctx?_eq_none (by rw [h0.id]; exact hno1)
+    have e0 : s0.ctx? c.id = none := ctx?_eq_none (by rw [h0.id]; exact hno0)
+    unfold refetch
+    rw [e1, e0]
+    exact ⟨h0.id, fun x hx => h0.tracked x (hown x hx), fun c' hc' hid => absurd hid (hno1 c' hc')⟩
+
+/-- whatever a callback does to the system from inside, the invariant survives -/
+theorem winv_cbAct {s : Sys} {op : Nat} {c : Ctx} (h : Winv s op c) (a : WorkAct) (tick : Nat) :
+    Winv (cbAct s c a tick).1 op (cbAct s c a tick).2 := by
+  unfold cbAct
+  simp only
+  have h0 : Winv { s with now := s.now + tick } op c := ⟨h.id, h.tracked, h.listed⟩
+  refine refetch_winv h0 (fun x hx => applyAct_owns a hx) (applyAct_ids a) ?_
+  intro hl
+  refine kinv_applyAct ⟨h0.listed, ?_⟩ a
+  intro hno
+  obtain ⟨c0, hc0, hid0⟩ := hl
+  exact absurd hid0 (hno c0 hc0)
+
+theorem refetch_id (a b : Sys) (c : Ctx) : (refetch a b c).id = c.id := by
   unfold refetch
-  cases hc : s1.ctx? c.id with
-  | some c' =>
-    obtain ⟨hm, hi⟩ := ctx?_some hc
-    exact ⟨hi.trans hid, hk.listed c' hm (hi.trans hid)⟩
+  cases hc : b.ctx? c.id with
+  | some c' => exact (ctx?_some hc).2
   | none =>
-    refine ⟨hid, ?_⟩
-    intro x hx
-    exact absurd hx (hk.unlisted (by rw [← hid]; exact ctx?_none hc) x)
+    cases a.ctx? c.id with
+    | none => rfl
+    | some _ => rfl
 
 /-! ### `acquire` -/
 
@@ -854,45 +973,107 @@ theorem clean_failWith {s : Sys} {op : Nat} {c : Ctx} (hid : c.id = op) (ht : Tr
   subst hid
   exact finish_clean ht
 
-theorem clean_execCommit {s : Sys} {op : Nat} {c : Ctx} (hid : c.id = op) (ht : Tracked s op c) (adv : Adv)
+theorem advance_id' (now : Nat) (c : Ctx) (ph : Phase) (o : CpOut) :
+    (advance now { c with phase := ph } o).1.id = c.id ∧ (advance now { c with phase := ph } o).1.acquired = c.acquired :=
+  advance_id now { c with phase := ph } o
+
+theorem winv_advanceCb {s : Sys} {op : Nat} {c : Ctx} (h : Winv s op c) (adv : Adv) (i : Nat) :
+    Winv (advanceCb s c adv i).1 op (advanceCb s c adv i).2.1 := by
+  unfold advanceCb
+  simp only
+  have hp := winv_cbAct h (adv.cpAct i) (adv.cpTick i)
+  generalize cbAct s c (adv.cpAct i) (adv.cpTick i) = p at hp ⊢
+  have ha := advance_id' p.1.now p.2 c.phase (adv.cp i)
+  split
+  · exact winv_setCtx hp (ha.1.trans hp.id) ha.2
+  · exact hp
+
+theorem winv_acquire {s : Sys} {op : Nat} {c : Ctx} (h : Winv s op c) (r : Nat) :
+    Winv (acquire s c r).1 op (acquire s c r).2.1 := by
+  cases hl : s.locks r with
+  | none => rw [acquire_unknown hl]; exact h
+  | some l =>
+    by_cases hres : (l.tryAcquire c.id c.prio).2 = .blocked
+    · rw [acquire_blocked hl hres]
+      have hown : ∀ o x, Owns ({ s.setLock r { l with waiting := addWaiting l.waiting c.id c.prio } with
+          edges := addDep s.edges c.id (l.owner.getD 0) r }) o x ↔ Owns s o x := by
+        intro o x
+        unfold Owns
+        by_cases hx : x = r
+        · subst hx; simp [Sys.setLock, hl]
+        · simp [Sys.setLock, hx]
+      exact ⟨h.id, fun x hx => h.tracked x ((hown op x).mp hx),
+        fun c' hc' hid x hx => h.listed c' hc' hid x ((hown op x).mp hx)⟩
+    · rw [acquire_ok hl hres]
+      simp only
+      have ht : Tracked ({ s.setLock r (l.tryAcquire c.id c.prio).1 with edges := removeAllFor s.edges c.id }) op
+          { c with acquired := addKey c.acquired r } := by
+        intro x hx
+        simp only [mem_addKey]
+        by_cases hxr : x = r
+        · exact Or.inr hxr
+        · left
+          apply h.tracked x
+          obtain ⟨l', hl', ho'⟩ := hx
+          simp only [Sys.setLock, hxr, if_false] at hl'
+          exact ⟨l', hl', ho'⟩
+      refine ⟨h.id, ht, ?_⟩
+      intro c' hc' hid'
+      rcases mem_setCtx hc' with rfl | ⟨_, hne⟩
+      · exact ht
+      · simp only at hne; rw [h.id, ← hid'] at hne; exact absurd rfl hne
+
+theorem winv_acqLoop {op : Nat} : ∀ (req : List Nat) {s : Sys} {c : Ctx}, Winv s op c →
+    Winv (acqLoop req s c).1 op (acqLoop req s c).2.1
+  | [], _, _, h => h
+  | r :: rs, s, c, h => by
+    have h1 := winv_acquire h r
+    unfold acqLoop
+    generalize hq : acquire s c r = q at h1
+    obtain ⟨s', c', res⟩ := q
+    cases res with
+    | none => exact h1
+    | some lr =>
+      cases lr with
+      | blocked => exact h1
+      | acquired => exact winv_acqLoop rs h1
+      | reentrant => exact winv_acqLoop rs h1
+      | preempted => exact winv_acqLoop rs h1
+
+theorem clean_execCommit {s : Sys} {op : Nat} {c : Ctx} (h : Winv s op c) (adv : Adv)
     (log : List Ev) (aw : Option Sys) : Clean (execCommit s c adv log aw).sys op := by
   unfold execCommit
   simp only
-  have ha := advance_id (s.setCtx { c with valPassed := true }).now { c with valPassed := true } (adv.cp 3)
-  have ht1 : Tracked (s.setCtx { c with valPassed := true }) op { c with valPassed := true } :=
-    tracked_setCtx ht rfl
-  have ht2 := tracked_setCtx (c2 := (advance (s.setCtx { c with valPassed := true }).now
-    { c with valPassed := true } (adv.cp 3)).1) ht1 ha.2
+  have h1 : Winv (s.setCtx { c with valPassed := true }) op { c with valPassed := true } := winv_setCtx h h.id rfl
+  have h2 := winv_advanceCb h1 adv 3
   split
-  · exact clean_finish (ha.1.trans hid) ht2
-  · exact clean_failWith (ha.1.trans hid) ht2 _ _
+  · exact clean_finish h2.id h2.tracked
+  · exact clean_failWith h2.id h2.tracked _ _
 
-theorem clean_execValidate {s : Sys} {op : Nat} {c : Ctx} (hid : c.id = op) (ht : Tracked s op c) (adv : Adv)
+theorem clean_execValidate {s : Sys} {op : Nat} {c : Ctx} (h : Winv s op c) (adv : Adv)
     (log : List Ev) (aw : Option Sys) : Clean (execValidate s c adv log aw).sys op := by
   unfold execValidate
   simp only
-  have ha := advance_id s.now c (adv.cp 2)
-  have ht1 := tracked_setCtx (c2 := (advance s.now c (adv.cp 2)).1) ht ha.2
+  have h1 := winv_advanceCb h adv 2
+  generalize advanceCb s c adv 2 = a at h1 ⊢
+  have hp := winv_cbAct h1 adv.valAct adv.valTick
   split
   · split
-    · exact clean_execCommit (ha.1.trans hid) ht1 adv _ _
-    · exact clean_execCommit (ha.1.trans hid) ht1 adv _ _
-    · exact clean_failWith (ha.1.trans hid) ht1 _ _
-    · exact clean_failWith (ha.1.trans hid) ht1 _ _
-  · exact clean_failWith (ha.1.trans hid) ht1 _ _
+    · exact clean_execCommit h1 adv _ _
+    · exact clean_execCommit hp adv _ _
+    · exact clean_failWith hp.id hp.tracked _ _
+    · exact clean_failWith hp.id hp.tracked _ _
+  · exact clean_failWith h1.id h1.tracked _ _
 
-theorem clean_execWork {s : Sys} {op : Nat} {c : Ctx} (h : Inv1 s op c) (adv : Adv) (log : List Ev) :
+theorem clean_execWork {s : Sys} {op : Nat} {c : Ctx} (h : Winv s op c) (adv : Adv) (log : List Ev) :
     Clean (execWork s c adv log).sys op := by
   unfold execWork
   simp only
-  have hk0 : Kinv { s with now := s.now + adv.tick } op := ⟨h.kinv.listed, h.kinv.unlisted⟩
-  have hk := kinv_applyAct hk0 adv.act
-  have hr := refetch_tracked (s := { s with now := s.now + adv.tick }) h.id hk
+  have hp := winv_cbAct h adv.act adv.tick
+  generalize cbAct s c adv.act adv.tick = p at hp ⊢
   split
-  · exact clean_execValidate (c := { refetch { s with now := s.now + adv.tick }
-        (applyAct { s with now := s.now + adv.tick } adv.act) c with execDone := true }) hr.1
-      (tracked_setCtx hr.2 rfl) adv _ _
-  · exact clean_failWith hr.1 hr.2 _ _
+  · exact clean_execValidate (c := { p.2 with execDone := true }) (winv_setCtx hp hp.id rfl) adv _ _
+  · exact clean_failWith hp.id hp.tracked _ _
 
 theorem inv1_start {s : Sys} {op : Nat} (hown : ∀ x, ¬ Owns s op x) (p : Int) :
     Inv1 (s.start op p).1 op (s.start op p).2 := by
@@ -906,21 +1087,21 @@ theorem inv1_start {s : Sys} {op : Nat} (hown : ∀ x, ¬ Owns s op x) (p : Int)
   · exact ⟨rfl, fun x hx => absurd hx (hown x), ⟨fun _ _ _ x hx => absurd hx (hown x), fun _ x => hown x⟩,
       ⟨_, List.mem_append_right _ (List.mem_singleton.mpr rfl), rfl⟩⟩
 
+theorem Inv1.winv {s : Sys} {op : Nat} {c : Ctx} (h : Inv1 s op c) : Winv s op c := ⟨h.id, h.tracked, h.kinv.listed⟩
+
 theorem clean_exec (s : Sys) (op : Nat) (prio : Int) (req : List Nat) (adv : Adv) (hown : ∀ x, ¬ Owns s op x) :
     Clean (exec s op prio req adv).sys op := by
   unfold exec
   simp only
-  have h0 := inv1_start hown prio
-  have ha0 := advance_id (s.start op prio).1.now (s.start op prio).2 (adv.cp 0)
-  have h1 := inv1_setCtx (c2 := (advance (s.start op prio).1.now (s.start op prio).2 (adv.cp 0)).1) h0
-    (ha0.1.trans h0.id) ha0.2
-  have h2 := inv1_acqLoop req h1
+  have h0 := (inv1_start hown prio).winv
+  have h1 := winv_advanceCb h0 adv 0
+  generalize advanceCb (s.start op prio).1 (s.start op prio).2 adv 0 = a0 at h1 ⊢
+  have h2 := winv_acqLoop req h1
+  generalize acqLoop req a0.1 a0.2.1 = q at h2 ⊢
   split
-  · generalize (acqLoop req _ _) = q at h2 ⊢
-    have h3 := inv1_setCtx (c2 := { q.2.1 with resAcq := true }) h2 h2.id rfl
-    have ha1 := advance_id (q.1.setCtx { q.2.1 with resAcq := true }).now { q.2.1 with resAcq := true } (adv.cp 1)
-    have h4 := inv1_setCtx (c2 := (advance (q.1.setCtx { q.2.1 with resAcq := true }).now
-      { q.2.1 with resAcq := true } (adv.cp 1)).1) h3 (ha1.1.trans h2.id) ha1.2
+  · have h3 : Winv (q.1.setCtx { q.2.1 with resAcq := true }) op { q.2.1 with resAcq := true } :=
+      winv_setCtx h2 h2.id rfl
+    have h4 := winv_advanceCb h3 adv 1
     split
     · exact clean_execWork h4 adv _
     · exact clean_failWith h4.id h4.tracked _ _
@@ -988,12 +1169,13 @@ theorem execValidate_shape (s : Sys) (c : Ctx) (adv : Adv) (log : List Ev) (aw :
       Tail adv ([.cp 1 true, .work true] ++ t) (execValidate s c adv log aw).success := by
   unfold execValidate
   simp only
+  generalize advanceCb s c adv 2 = a
+  generalize cbAct a.1 a.2.1 adv.valAct adv.valTick = p
   split
   · cases hv : adv.val with
     | absent =>
       simp only
-      rcases execCommit_shape (s.setCtx (advance s.now c (adv.cp 2)).1) (advance s.now c (adv.cp 2)).1 adv
-        (log ++ [.cp 2 true]) aw with ⟨h1, h2⟩ | ⟨h1, h2⟩
+      rcases execCommit_shape a.1 a.2.1 adv (log ++ [.cp 2 true]) aw with ⟨h1, h2⟩ | ⟨h1, h2⟩
       · refine ⟨[.cp 2 true, .cp 3 false, .abort], by rw [h1]; simp, ?_⟩
         rw [h2]
         have := Tail.cp3 hw (Or.inl hv)
@@ -1004,8 +1186,7 @@ theorem execValidate_shape (s : Sys) (c : Ctx) (adv : Adv) (log : List Ev) (aw :
         simpa [hv, valEvs] using this
     | yes =>
       simp only
-      rcases execCommit_shape (s.setCtx (advance s.now c (adv.cp 2)).1) (advance s.now c (adv.cp 2)).1 adv
-        (log ++ [.cp 2 true, .validate true]) aw with ⟨h1, h2⟩ | ⟨h1, h2⟩
+      rcases execCommit_shape p.1 p.2 adv (log ++ [.cp 2 true, .validate true]) aw with ⟨h1, h2⟩ | ⟨h1, h2⟩
       · refine ⟨[.cp 2 true, .validate true, .cp 3 false, .abort], by rw [h1]; simp, ?_⟩
         rw [h2]
         have := Tail.cp3 hw (Or.inr hv)
@@ -1026,14 +1207,11 @@ theorem execWork_shape (s : Sys) (c : Ctx) (adv : Adv) (log : List Ev) :
     ∃ t, (execWork s c adv log).log = log ++ t ∧ Tail adv (.cp 1 true :: t) (execWork s c adv log).success := by
   unfold execWork
   simp only
+  generalize cbAct s c adv.act adv.tick = p
   split
   · rename_i hw
-    obtain ⟨t, h1, h2⟩ := execValidate_shape
-      ((applyAct { s with now := s.now + adv.tick } adv.act).setCtx
-        { refetch { s with now := s.now + adv.tick } (applyAct { s with now := s.now + adv.tick } adv.act) c with
-          execDone := true })
-      { refetch { s with now := s.now + adv.tick } (applyAct { s with now := s.now + adv.tick } adv.act) c with
-          execDone := true } adv (log ++ [.work true]) (some s) hw
+    obtain ⟨t, h1, h2⟩ := execValidate_shape (p.1.setCtx { p.2 with execDone := true })
+      { p.2 with execDone := true } adv (log ++ [.work true]) (some s) hw
     exact ⟨.work true :: t, by rw [h1]; simp, by simpa using h2⟩
   · rename_i hw
     exact ⟨[.work false, .abort], by simp [failWith], by
@@ -1171,23 +1349,70 @@ theorem acqLoop_id : ∀ (req : List Nat) (s : Sys) (c : Ctx), (acqLoop req s c)
       | reentrant => simp only; rw [acqLoop_id rs s' c']; exact hid
       | preempted => simp only; rw [acqLoop_id rs s' c']; exact hid
 
-/-- the system the work function finds: every requested resource is owned by the operation -/
+/-- a callback that leaves operation `op` alone: it does nothing to the system, or kills another operation -/
+def WorkAct.spares (a : WorkAct) (op : Nat) : Prop := a = .none ∨ ∃ t, a = .kill t ∧ t ≠ op
+
+theorem abortById_owns_other {s : Sys} {o a x : Nat} (hne : a ≠ o) (h : Owns s a x) : Owns (abortById s o) a x := by
+  unfold abortById
+  cases hc : s.ctx? o with
+  | none => exact h
+  | some cx =>
+    simp only
+    have hf := finish_finStep s cx
+    rw [(ctx?_some hc).2] at hf
+    exact hf.owns_other hne h
+
+theorem cbAct_owns_spared {s : Sys} {c : Ctx} {a : WorkAct} {op x : Nat} (tick : Nat) (hsp : a.spares op)
+    (h : Owns s op x) : Owns (cbAct s c a tick).1 op x := by
+  unfold cbAct
+  simp only
+  rcases hsp with rfl | ⟨t, rfl, hne⟩
+  · exact h
+  · exact abortById_owns_other (s := { s with now := s.now + tick }) (fun e => hne e.symm) h
+
+theorem advanceCb_owns_spared {s : Sys} {c : Ctx} {adv : Adv} {i op x : Nat} (hsp : (adv.cpAct i).spares op)
+    (h : Owns s op x) : Owns (advanceCb s c adv i).1 op x := by
+  have h1 := cbAct_owns_spared (c := c) (adv.cpTick i) hsp h
+  unfold advanceCb
+  simp only
+  split
+  · exact h1
+  · exact h1
+
+theorem cbAct_id (s : Sys) (c : Ctx) (a : WorkAct) (tick : Nat) : (cbAct s c a tick).2.id = c.id :=
+  refetch_id _ _ c
+
+theorem advanceCb_id (s : Sys) (c : Ctx) (adv : Adv) (i : Nat) : (advanceCb s c adv i).2.1.id = c.id := by
+  unfold advanceCb
+  simp only
+  have ha := advance_id' (cbAct s c (adv.cpAct i) (adv.cpTick i)).1.now (cbAct s c (adv.cpAct i) (adv.cpTick i)).2
+    c.phase (adv.cp i)
+  split
+  · exact ha.1.trans (cbAct_id _ _ _ _)
+  · exact cbAct_id _ _ _ _
+
+theorem start_id (s : Sys) (op : Nat) (prio : Int) : (s.start op prio).2.id = op := by
+  unfold Sys.start; simp only; split <;> rfl
+
+/-- the system the work function finds: every requested resource is owned by the operation — provided the callback
+    of the G1 → S checkpoint, which runs between the last acquisition and the work function, leaves the operation
+    alone (see `c14_work_after_kill_in_g1_checkpoint_witness` for what happens otherwise) -/
 theorem exec_atWork (s : Sys) (op : Nat) (prio : Int) (req : List Nat) (adv : Adv) (w : Sys)
+    (hsp : (adv.cpAct 1).spares op)
     (h : (exec s op prio req adv).atWork = some w) : ∀ r ∈ req, Owns w op r := by
   unfold exec at h
   simp only at h
-  have hsid : (s.start op prio).2.id = op := by unfold Sys.start; simp only; split <;> rfl
-  have ha0 := advance_id (s.start op prio).1.now (s.start op prio).2 (adv.cp 0)
-  have hall := @acqLoop_owns_all req ((s.start op prio).1.setCtx (advance (s.start op prio).1.now (s.start op prio).2 (adv.cp 0)).1)
-    (advance (s.start op prio).1.now (s.start op prio).2 (adv.cp 0)).1
-  rw [ha0.1, hsid] at hall
+  have hid0 := (advanceCb_id (s.start op prio).1 (s.start op prio).2 adv 0).trans (start_id s op prio)
+  generalize advanceCb (s.start op prio).1 (s.start op prio).2 adv 0 = a0 at h hid0
+  have hall := @acqLoop_owns_all req a0.1 a0.2.1
+  rw [hid0] at hall
   split at h
   · rename_i hok
     split at h
     · rw [execWork_atWork] at h
       cases h
       intro r hr
-      exact hall hok r hr
+      exact advanceCb_owns_spared hsp (hall hok r hr)
     · simp [failWith] at h
   · simp [failWith] at h
 
@@ -1197,18 +1422,14 @@ theorem exec_shape (s : Sys) (op : Nat) (prio : Int) (req : List Nat) (adv : Adv
       ((exec s op prio req adv).atWork = none → t = [.abort] ∨ t = [.cp 1 false, .abort]) := by
   unfold exec
   simp only
-  generalize hst : s.start op prio = st
-  generalize ha0 : advance st.1.now st.2 (adv.cp 0) = a0
-  have hacq := acqLoop_log req (st.1.setCtx a0.1) a0.1
-  generalize acqLoop req (st.1.setCtx a0.1) a0.1 = q at hacq ⊢
-  refine ⟨a0.2, q.2.2.1, ?_⟩
+  generalize advanceCb (s.start op prio).1 (s.start op prio).2 adv 0 = a0
+  have hacq := acqLoop_log req a0.1 a0.2.1
+  generalize acqLoop req a0.1 a0.2.1 = q at hacq ⊢
+  refine ⟨a0.2.2, q.2.2.1, ?_⟩
   split
-  · split
-    · obtain ⟨t, h1, h2⟩ := execWork_shape
-        ((q.1.setCtx { q.2.1 with resAcq := true }).setCtx
-          (advance (q.1.setCtx { q.2.1 with resAcq := true }).now { q.2.1 with resAcq := true } (adv.cp 1)).1)
-        (advance (q.1.setCtx { q.2.1 with resAcq := true }).now { q.2.1 with resAcq := true } (adv.cp 1)).1 adv
-        (Ev.cp 0 a0.2 :: q.2.2.1 ++ [.cp 1 true])
+  · generalize advanceCb (q.1.setCtx { q.2.1 with resAcq := true }) { q.2.1 with resAcq := true } adv 1 = a1
+    split
+    · obtain ⟨t, h1, h2⟩ := execWork_shape a1.1 a1.2.1 adv (Ev.cp 0 a0.2.2 :: q.2.2.1 ++ [.cp 1 true])
       refine ⟨.cp 1 true :: t, hacq, by rw [h1]; simp, h2, ?_⟩
       intro hn
       rw [execWork_atWork] at hn
@@ -1309,63 +1530,87 @@ theorem untouched_failWith {s : Sys} {op r : Nat} {c : Ctx} {l : Lock} (hf : For
   subst hid
   exact finish_lockIs h hf.owner hf.sorted hf.notWaiting
 
+/-- a callback that touches no other operation: it does nothing to the system, or ends the operation itself -/
+def WorkAct.selfOnly (a : WorkAct) (op : Nat) : Prop := a = .none ∨ a = .kill op
+
+/-- none of the callbacks of the call (checkpoint conditions, work function, `validate_fn`) touches another operation -/
+structure Adv.SelfOnly (adv : Adv) (op : Nat) : Prop where
+  cp : ∀ i, (adv.cpAct i).selfOnly op
+  work : adv.act.selfOnly op
+  val : adv.valAct.selfOnly op
+
+theorem untouched_cbAct {s : Sys} {op r : Nat} {c : Ctx} {l : Lock} (hf : Foreign l op)
+    (h : s.locks r = some l) {a : WorkAct} (ha : a.selfOnly op) (tick : Nat) :
+    (cbAct s c a tick).1.locks r = some l := by
+  unfold cbAct
+  simp only
+  rcases ha with ha | ha
+  · rw [ha]; exact h
+  · rw [ha]
+    simp only [applyAct, manualKill, abortById]
+    cases hc : Sys.ctx? { s with now := s.now + tick } op with
+    | none => exact h
+    | some cx =>
+      simp only
+      have hcx := (ctx?_some hc).2
+      subst hcx
+      exact finish_lockIs (Or.inl h) hf.owner hf.sorted hf.notWaiting
+
+theorem untouched_advanceCb {s : Sys} {op r : Nat} {c : Ctx} {l : Lock} (hf : Foreign l op)
+    (h : s.locks r = some l) (adv : Adv) (i : Nat) (ha : (adv.cpAct i).selfOnly op) :
+    (advanceCb s c adv i).1.locks r = some l := by
+  have h1 := untouched_cbAct (c := c) hf h ha (adv.cpTick i)
+  unfold advanceCb
+  simp only
+  split
+  · exact h1
+  · exact h1
+
 theorem untouched_execCommit {s : Sys} {op r : Nat} {c : Ctx} {l : Lock} (hf : Foreign l op) (hid : c.id = op)
-    (h : s.locks r = some l) (adv : Adv) (log : List Ev) (aw : Option Sys) :
+    (h : s.locks r = some l) (adv : Adv) (hso : adv.SelfOnly op) (log : List Ev) (aw : Option Sys) :
     (execCommit s c adv log aw).sys.locks r = some l := by
   unfold execCommit
   simp only
-  have ha := advance_id (s.setCtx { c with valPassed := true }).now { c with valPassed := true } (adv.cp 3)
+  have hl := untouched_advanceCb (s := s.setCtx { c with valPassed := true }) (c := { c with valPassed := true })
+    hf h adv 3 (hso.cp 3)
+  have hid' := (advanceCb_id (s.setCtx { c with valPassed := true }) { c with valPassed := true } adv 3).trans hid
+  generalize advanceCb (s.setCtx { c with valPassed := true }) { c with valPassed := true } adv 3 = a at hl hid' ⊢
   split
-  · have hid' := ha.1.trans hid
-    subst hid'
-    exact finish_lockIs (Or.inl h) hf.owner hf.sorted hf.notWaiting
-  · refine untouched_failWith hf (ha.1.trans hid) ?_ _ _
-    exact Or.inl h
+  · subst hid'
+    exact finish_lockIs (Or.inl hl) hf.owner hf.sorted hf.notWaiting
+  · exact untouched_failWith hf hid' (Or.inl hl) _ _
 
 theorem untouched_execValidate {s : Sys} {op r : Nat} {c : Ctx} {l : Lock} (hf : Foreign l op) (hid : c.id = op)
-    (h : s.locks r = some l) (adv : Adv) (log : List Ev) (aw : Option Sys) :
+    (h : s.locks r = some l) (adv : Adv) (hso : adv.SelfOnly op) (log : List Ev) (aw : Option Sys) :
     (execValidate s c adv log aw).sys.locks r = some l := by
   unfold execValidate
   simp only
-  have ha := advance_id s.now c (adv.cp 2)
-  have hid2 := ha.1.trans hid
+  have hl := untouched_advanceCb (c := c) hf h adv 2 (hso.cp 2)
+  have hid2 := (advanceCb_id s c adv 2).trans hid
+  generalize advanceCb s c adv 2 = a at hl hid2 ⊢
+  have hlp := untouched_cbAct (c := a.2.1) hf hl hso.val adv.valTick
+  have hidp := (cbAct_id a.1 a.2.1 adv.valAct adv.valTick).trans hid2
+  generalize cbAct a.1 a.2.1 adv.valAct adv.valTick = p at hlp hidp ⊢
   split
   · split
-    · refine untouched_execCommit hf hid2 ?_ adv _ _; exact h
-    · refine untouched_execCommit hf hid2 ?_ adv _ _; exact h
-    · refine untouched_failWith hf hid2 ?_ _ _; exact Or.inl h
-    · refine untouched_failWith hf hid2 ?_ _ _; exact Or.inl h
-  · refine untouched_failWith hf hid2 ?_ _ _; exact Or.inl h
-
-theorem refetch_id (a b : Sys) (c : Ctx) : (refetch a b c).id = c.id := by
-  unfold refetch
-  cases hc : b.ctx? c.id with
-  | some c' => exact (ctx?_some hc).2
-  | none => rfl
+    · exact untouched_execCommit hf hid2 hl adv hso _ _
+    · exact untouched_execCommit hf hidp hlp adv hso _ _
+    · exact untouched_failWith hf hidp (Or.inl hlp) _ _
+    · exact untouched_failWith hf hidp (Or.inl hlp) _ _
+  · exact untouched_failWith hf hid2 (Or.inl hl) _ _
 
 theorem untouched_execWork {s : Sys} {op r : Nat} {c : Ctx} {l : Lock} (hf : Foreign l op) (hid : c.id = op)
-    (h : s.locks r = some l) (adv : Adv) (hact : adv.act = .none ∨ adv.act = .kill op) (log : List Ev) :
+    (h : s.locks r = some l) (adv : Adv) (hso : adv.SelfOnly op) (log : List Ev) :
     (execWork s c adv log).sys.locks r = some l := by
   unfold execWork
   simp only
-  have h1 : (applyAct { s with now := s.now + adv.tick } adv.act).locks r = some l := by
-    rcases hact with ha | ha
-    · rw [ha]; exact h
-    · rw [ha]
-      simp only [applyAct, manualKill, abortById]
-      cases hc : Sys.ctx? { s with now := s.now + adv.tick } op with
-      | none => exact h
-      | some cx =>
-        simp only
-        have hcx := (ctx?_some hc).2
-        subst hcx
-        exact finish_lockIs (Or.inl h) hf.owner hf.sorted hf.notWaiting
-  have hrid := (refetch_id { s with now := s.now + adv.tick } (applyAct { s with now := s.now + adv.tick } adv.act) c).trans hid
+  have h1 := untouched_cbAct (c := c) hf h hso.work adv.tick
+  have hrid := (cbAct_id s c adv.act adv.tick).trans hid
+  generalize cbAct s c adv.act adv.tick = p at h1 hrid ⊢
   split
-  · refine untouched_execValidate hf ?_ ?_ adv _ _
-    · exact hrid
-    · exact h1
-  · refine untouched_failWith hf hrid ?_ _ _; exact Or.inl h1
+  · exact untouched_execValidate (s := p.1.setCtx { p.2 with execDone := true }) (c := { p.2 with execDone := true })
+      hf hrid h1 adv hso _ _
+  · exact untouched_failWith hf hrid (Or.inl h1) _ _
 
 theorem acquire_lock_ne {s : Sys} {c : Ctx} {r0 r : Nat} (hne : r ≠ r0) : (acquire s c r0).1.locks r = s.locks r := by
   cases hl : s.locks r0 with
@@ -1421,23 +1666,20 @@ theorem acqLoop_lockIs {r : Nat} {l : Lock} : ∀ (req : List Nat) {s : Sys} {c 
           exact acqLoop_lockIs rs (hl1.trans h) (fun res hm => hlog res (List.mem_cons_of_mem _ hm))
 
 theorem untouched_exec (s : Sys) (op : Nat) (prio : Int) (req : List Nat) (adv : Adv) (r : Nat) (l : Lock)
-    (hl : s.locks r = some l) (hf : Foreign l op) (hact : adv.act = .none ∨ adv.act = .kill op)
+    (hl : s.locks r = some l) (hf : Foreign l op) (hso : adv.SelfOnly op)
     (hnever : ∀ res, Ev.acq r (some res) ∈ (exec s op prio req adv).log → res = .blocked) :
     (exec s op prio req adv).sys.locks r = some l := by
-  have hsid : (s.start op prio).2.id = op := by unfold Sys.start; simp only; split <;> rfl
+  have hsid := start_id s op prio
   have hsl : (s.start op prio).1.locks r = some l := by unfold Sys.start; simp only; split <;> exact hl
-  have ha0 := advance_id (s.start op prio).1.now (s.start op prio).2 (adv.cp 0)
-  have hid0 := ha0.1.trans hsid
-  have hloop := @acqLoop_lockIs r l req ((s.start op prio).1.setCtx
-    (advance (s.start op prio).1.now (s.start op prio).2 (adv.cp 0)).1)
-    (advance (s.start op prio).1.now (s.start op prio).2 (adv.cp 0)).1 hsl
-  have hqid := acqLoop_id req ((s.start op prio).1.setCtx
-    (advance (s.start op prio).1.now (s.start op prio).2 (adv.cp 0)).1)
-    (advance (s.start op prio).1.now (s.start op prio).2 (adv.cp 0)).1
-  rw [hid0] at hloop hqid
+  have hl0 := untouched_advanceCb (c := (s.start op prio).2) hf hsl adv 0 (hso.cp 0)
+  have hid0 := (advanceCb_id (s.start op prio).1 (s.start op prio).2 adv 0).trans hsid
   unfold exec at hnever ⊢
   simp only at hnever ⊢
-  generalize acqLoop req _ _ = q at hloop hqid hnever ⊢
+  generalize advanceCb (s.start op prio).1 (s.start op prio).2 adv 0 = a0 at hl0 hid0 hnever ⊢
+  have hloop := @acqLoop_lockIs r l req a0.1 a0.2.1 hl0
+  have hqid := acqLoop_id req a0.1 a0.2.1
+  rw [hid0] at hloop hqid
+  generalize acqLoop req a0.1 a0.2.1 = q at hloop hqid hnever ⊢
   split
   · rename_i hok
     simp only [hok, if_true] at hnever
@@ -1448,10 +1690,13 @@ theorem untouched_exec (s : Sys) (op : Nat) (prio : Int) (req : List Nat) (adv :
         · simp [failWith, hm])) with h | ⟨hfalse, _⟩
       · exact h
       · rw [hok] at hfalse; cases hfalse
-    have ha1 := advance_id (q.1.setCtx { q.2.1 with resAcq := true }).now { q.2.1 with resAcq := true } (adv.cp 1)
+    have hl1 := untouched_advanceCb (s := q.1.setCtx { q.2.1 with resAcq := true }) (c := { q.2.1 with resAcq := true })
+      hf hq adv 1 (hso.cp 1)
+    have hid1 := (advanceCb_id (q.1.setCtx { q.2.1 with resAcq := true }) { q.2.1 with resAcq := true } adv 1).trans hqid
+    generalize advanceCb (q.1.setCtx { q.2.1 with resAcq := true }) { q.2.1 with resAcq := true } adv 1 = a1 at hl1 hid1 ⊢
     split
-    · exact (by refine untouched_execWork hf (ha1.1.trans hqid) ?_ adv hact _; exact hq)
-    · exact (by refine untouched_failWith hf (ha1.1.trans hqid) ?_ _ _; exact Or.inl hq)
+    · exact untouched_execWork hf hid1 hl1 adv hso _
+    · exact untouched_failWith hf hid1 (Or.inl hl1) _ _
   · rename_i hok
     simp only [hok] at hnever
     have := hloop (fun res hm => hnever res (by simp [failWith, hm]))
